@@ -256,6 +256,8 @@ type CS struct {
 	Wait       func(ctx context.Context, tag int) (int, error)
 	Stream     func(ctx context.Context, tag int) (<-chan int, error)
 	SlowStream func(ctx context.Context, tag int) (<-chan int, error)
+	// the same subscription reached through a server-side alias
+	StreamAlias func(ctx context.Context, tag int) (<-chan int, error) `rpc_method:"subscribe_v1"`
 }
 
 // SlowStream takes its time to set the subscription up: it returns its channel only
@@ -332,10 +334,15 @@ func HarnessSubscriptionCancel() {
 	}
 	srv := jsonrpc.NewServer()
 	srv.Register("H", h)
+	srv.AliasMethod("subscribe_v1", "H.Stream")
 	url, stop := verif.ServeWS(srv)
 	var c CS
 	closer, err := jsonrpc.NewMergeClient(context.Background(), url, "H", []interface{}{&c}, nil)
 	verif.Assert(err == nil, "client-created")
+	subscribe := c.Stream
+	if verif.Bool("via_alias") {
+		subscribe = c.StreamAlias
+	}
 	pre := verif.Choice("calls_before", 3) // shifts request ids relative to channel ids
 	waitRet := 0
 	for i := 0; i < pre; i++ {
@@ -344,7 +351,7 @@ func HarnessSubscriptionCancel() {
 	}
 	verif.Quiesce()
 	subCtx, cancelSub := context.WithCancel(context.Background())
-	ch, serr := c.Stream(subCtx, 3)
+	ch, serr := subscribe(subCtx, 3)
 	verif.Assert(serr == nil && ch != nil, "subscription-established")
 	closed := 0
 	go func() {
